@@ -199,7 +199,7 @@ SPEC = {
     "property": "C06",
     "functions": FUNCTIONS,
     "bounds": "10 catalogue programs (parent awaiting/starting children with actions, finish and StopFlow of the parent, when/or-when scope, or-group of flows, two flows sharing an identical action, "
-              "activate of a waiting / immediately finishing flow, two activators with equal and different arguments, one flow activating the same flow twice, grand-children); after the native `Go` prefix, histories of L=2 (quick) / 3-4 (thorough) "
+              "activate of a waiting / immediately finishing flow, two activators with equal and different arguments, one flow activating the same flow twice, grand-children); after the native `Go` prefix, histories of L=2 (quick) / 3 (thorough) "
               "events over each alphabet incl. ActionStarted/ActionFinished feedback arriving early, late or never; payload offsets, tie-breaks, optional 10 s idle gap",
     "outside": "hierarchies outside the catalogue; actions started directly inside a when-scope; explicit deactivate; longer histories",
     "assumptions": ["'flows that started an action' are read from FlowState.action_uids; 'started by' from FlowState.parent_uid",
@@ -213,8 +213,8 @@ SPEC = {
          "smoke": [{"slice": {"prog": "shared_action", "L": 4}, "args": dict(s0=1, s1=2, s2=4, s3=3, p0=0, p1=0, p2=0, p3=0, c0=0, c1=1, c2=0, tadv=4)},
                    {"slice": {"prog": "activate_two_parents", "L": 4}, "args": dict(s0=3, s1=1, s2=4, s3=2, p0=0, p1=0, p2=0, p3=0, c0=0, c1=0, c2=0, tadv=1)},
                    {"slice": {"prog": "await_child_action", "L": 3}, "args": dict(s0=5, s1=1, s2=2, s3=0, p0=0, p1=0, p2=0, p3=0, c0=0, c1=0, c2=0, tadv=3)}]},
-        {"fn": "bounded", "tiers": ("thorough",), "slices": c09._slices(LIFE, 3) + c09._slices(["shared_action_started", "activate_two_parents"], 4),
-         "tcond": 3000, "tpath": 60, "bound": "prefix + L=3 all 9 programs, L=4 on 2 programs (partitioned on the first event)"},
+        {"fn": "bounded", "tiers": ("thorough",), "slices": c09._slices(LIFE, 3) + c09._slices(["shared_action_started"], 3),
+         "tcond": 3000, "tpath": 60, "bound": "prefix + L=3 all 9 programs, L=3 also after the shared action was started"},
         {"fn": "stop_twin", "expect": "counterexample", "slices": [{"prog": "await_child_action", "L": 2}, {"prog": "shared_action", "L": 3, "s0": 1}], "tcond": 300, "tpath": 30, "bound": "twin"},
     ],
 }
